@@ -13,6 +13,10 @@ BOPS = ["add", "sub", "mul", "div", "mod", "pow", "shl", "shr", "lt", "gt", "le"
 KEYS = ["x", "y", "z", "k0", "k1", "amount"]
 
 
+# documentation strings are reproduced exactly: layout (indentation, blank lines, tabs), quotes, non-ASCII
+DOCS = ["", "", "doc of @", "doc of @", "  padded @  ", "first line of @\n    indented second line\n", "\n\n@ after blank lines",
+        "\ttab\tin @", "quote \" and \\ in @", "é—@ ✓", " ", "@\r\nwindows", "{@: \"json\"}"]
+
 class Gen:
     def __init__(self, rng, max_cmds=25, max_depth=2, escapes=False):
         self.rng = rng
@@ -83,7 +87,7 @@ class Gen:
         p = party if party is not None else rng.choice(self.parties)
         self.nin += 1
         name = f"in{self.nin}" if rng.random() > 0.04 else f"in{rng.randint(1, max(1, self.nin))}"
-        self.do({"op": "inputObj", "name": name, "doc": rng.choice(["", "", f"doc of {name}"]), "party": p})
+        self.do({"op": "inputObj", "name": name, "doc": rng.choice(DOCS).replace("@", name), "party": p})
         r = len(self.m.regs) - 1
         self.do({"op": "wrap", "t": t or rng.choice(PUBSEC), "r": r})
         return len(self.m.regs) - 1
